@@ -1,0 +1,67 @@
+package basestore
+
+import (
+	"fmt"
+
+	ipfslog "berty.tech/go-ipfs-log"
+	"berty.tech/go-ipfs-log/identityprovider"
+	"berty.tech/go-ipfs-log/iface"
+	cid "github.com/ipfs/go-cid"
+	format "github.com/ipfs/go-ipld-format"
+)
+
+// guardedIO wraps the IO of a store. Blocks reached through the links of
+// entries come from other peers: a block that decodes but lacks what the
+// decoder dereferences (no clock, an identity without signatures) made the
+// decoder panic in a goroutine of the fetcher, which ended the process. Such
+// a block is reported as an error instead, i.e. as a block that is not an
+// entry.
+type guardedIO struct {
+	ipfslog.IO
+}
+
+func (g *guardedIO) DecodeRawEntry(node format.Node, hash cid.Cid, p identityprovider.Interface) (e iface.IPFSLogEntry, err error) {
+	defer func() {
+		if r := recover(); r != nil {
+			e, err = nil, fmt.Errorf("block %s is not a well-formed entry: %v", hash, r)
+		}
+	}()
+
+	return g.IO.DecodeRawEntry(node, hash, p)
+}
+
+func (g *guardedIO) DecodeRawJSONLog(node format.Node) (l *iface.JSONLog, err error) {
+	defer func() {
+		if r := recover(); r != nil {
+			l, err = nil, fmt.Errorf("block is not a well-formed log: %v", r)
+		}
+	}()
+
+	return g.IO.DecodeRawJSONLog(node)
+}
+
+// guardedPreSignIO is a guardedIO whose inner IO also implements PreSign.
+type guardedPreSignIO struct {
+	guardedIO
+	preSign iface.IOPreSign
+}
+
+func (g *guardedPreSignIO) PreSign(entry iface.IPFSLogEntry) (iface.IPFSLogEntry, error) {
+	return g.preSign.PreSign(entry)
+}
+
+// guardIO returns io wrapped so that decoding never panics.
+func guardIO(io ipfslog.IO) ipfslog.IO {
+	switch io.(type) {
+	case nil:
+		return nil
+	case *guardedIO, *guardedPreSignIO:
+		return io
+	}
+
+	if ps, ok := io.(iface.IOPreSign); ok {
+		return &guardedPreSignIO{guardedIO: guardedIO{IO: io}, preSign: ps}
+	}
+
+	return &guardedIO{IO: io}
+}
